@@ -213,6 +213,35 @@ func main() {
 		gp := gen01.Generate(rng.Fork(), cfg)
 		progs = append(progs, prog{stream: "gen01", name: fmt.Sprintf("gen01_%d", i), src: gp.Source()})
 	}
+	// small programs around the checker's and codegen's rejections (accepted or
+	// rejected: elab must agree with the compiler)
+	hd := "counter c0\ncounter c1 by k\ngauge gi\ngauge gf\ntext tx\n"
+	use := "/^Z (?P<z>\\d+)/ {\n  c0++\n  c1[\"k\"]++\n  gi = $z\n  gf = 1.5\n  tx = \"s\"\n}\n"
+	for i, body := range []string{
+		"/^A/ {\n  gf++\n}\n", "/^A/ {\n  tx++\n}\n", "/^A/ {\n  gi--\n}\n",
+		"/^A (\\S+)/ {\n  gi = len(tolower(5))\n}\n", "/^A (\\S+)/ {\n  gi = len(tolower($1))\n}\n",
+		"/^A/ {\n  c1++\n}\n", "/^A/ {\n  c0[\"a\"]++\n}\n", "/^A/ {\n  c1[\"a\"][\"b\"]++\n}\n",
+		"/^A/ {\n  del c0\n}\n", "/^A/ {\n  del c1[\"a\"] after 1m\n}\n",
+		"/^A (\\d+)/ {\n  gi = $2\n}\n", "/^A (\\d+)/ {\n  gi = $1\n  /^B (\\d+)/ {\n    gi = $1\n  }\n}\n",
+		"/^A (\\d+)/ && /B (\\d+)/ {\n  gi = 1\n}\n",
+		"/^A (\\d+)/ {\n  gi = $1 / 0\n}\n", "/^A (\\d+)/ {\n  gi = $1 % 0\n}\n", "/^A (\\d+)/ {\n  gf = $1 / 0.0\n}\n",
+		"/^A (\\d+\\.\\d+)/ {\n  gi = int($1)\n}\n", "/^A (\\d+)/ {\n  gf = float($1)\n  tx = string($1)\n}\n",
+		"/^A (\\S+)/ {\n  strptime($1, \"2006-01-02\")\n}\n", "/^A (\\S+)/ {\n  strptime($1, \"notalayout99\")\n}\n",
+		"/^A (?P<n>\\d+)/ {\n  $n {\n    c0++\n  }\n}\n", "/^A (?P<n>\\d+)/ {\n  $n > 1 {\n    c0++\n  }\n}\n",
+		"/^A (\\d+)/ {\n  gi = ($1 > 2) + 1\n}\n", "/^A (\\d+)/ {\n  gi = ~$1 + 1\n}\n",
+		"/^A (\\d+) (\\S+)/ {\n  gi = $1 + $2\n}\n", "/^A (\\d+) (\\S+)/ {\n  tx = $2 + $1\n}\n", "/^A (\\d+) (\\S+)/ {\n  tx = $2 - $1\n}\n",
+		"/^A (\\d+) (\\S+)/ {\n  $2 < $1 {\n    c0++\n  }\n}\n", "/^A (\\d+) (\\d+\\.\\d+)/ {\n  $2 < $1 {\n    c0++\n  }\n  gf = $1 * $2 - $1\n}\n",
+		"/^A (\\d+)/ {\n  gi = $1 & 3 | $1 << 2\n  gf = gf + $1\n}\n", "/^A (\\S+)/ {\n  gi = $1 =~ /x/\n}\n",
+		"/^A (\\S+)/ {\n  $1 =~ /x(\\d+)/ {\n    gi = $1\n  }\n}\n", "/^A (/ {\n  c0++\n}\n",
+		// a group name used twice in one pattern: symbol.InsertAlias never reports it, the first group wins
+		"/^A (?P<n>\\d+) (?P<n>\\S+)/ {\n  gi = $n\n  tx = $2\n}\n",
+	} {
+		progs = append(progs, prog{stream: "reject", name: fmt.Sprintf("reject_%d", i), src: hd + body + use},
+			prog{stream: "reject", name: fmt.Sprintf("reject_%d_after", i), src: hd + use + body})
+	}
+	progs = append(progs, prog{stream: "reject", name: "reject_unused", src: "counter c0\ncounter unused\n/^A/ {\n  c0++\n}\n"},
+		prog{stream: "reject", name: "reject_text_counter", src: "counter t\n/^A/ {\n  t = \"x\"\n}\n"},
+		prog{stream: "reject", name: "reject_undeclared", src: "counter c0\n/^A/ {\n  c0++\n  nope++\n}\n"})
 	nElab := 0
 	for _, p := range progs {
 		if p.asm != nil {
